@@ -19,6 +19,10 @@ import Tumfl.Props.C13
 #print axioms Tumfl.Props.C02_boundary
 #print axioms Tumfl.Props.C08_comment_wf
 #print axioms Tumfl.Props.C08_comment_text
+#print axioms Tumfl.Props.C01_default_style
+#print axioms Tumfl.Props.C02_minified_style
+#print axioms Tumfl.Inst.defaultStyle_repr_ok
+#print axioms Tumfl.Inst.minifiedStyle_repr_ok
 #print axioms Tumfl.Props.C01_same_program
 #print axioms Tumfl.Props.C02_same_program_final
 #print axioms Tumfl.Props.C01_same_program_emit
